@@ -148,6 +148,36 @@ func forEachNDInput(w *W, fn func(name string, text []byte)) {
 		w.res.Transitions++
 		fn("8k", b.Bytes())
 	}
+	// blank-line runs everywhere: every line is followed by a run of line ends, so wherever an index
+	// buffer fills (always at a 64-byte block edge) a run is cut there; the first line is padded
+	// so that every alignment of the runs to the blocks occurs
+	seps := []string{"\n\n", "\r\n\r\n", "\n \n", "\n\n\n", "\n\t\r\n\n"}
+	w.Note(fmt.Sprintf("blank-line runs at every alignment: [<0..63 blanks>0] then 450 (sync path) or 640 (async path) lines {\"k\":[d,true]}, every line followed by one of %d runs of line ends; whole, and with the last line cut short", len(seps)))
+	for shift := 0; shift < 64; shift++ {
+		w.res.States++
+		if !w.Mine() || w.Expired() || w.TooManyViolations() {
+			continue
+		}
+		for si, sep := range seps {
+			for _, lines := range []int{450, 640} {
+				if lines == 640 && (shift+si)%4 != 0 {
+					continue
+				}
+				var b bytes.Buffer
+				b.WriteString("[" + strings.Repeat(" ", shift) + "0]" + sep)
+				for i := 0; i < lines; i++ {
+					fmt.Fprintf(&b, "{\"k\":[%d,true]}%s", i%10, sep)
+				}
+				b.WriteString("[1]")
+				w.res.Transitions++
+				fn("blank-runs", b.Bytes())
+				if si < 2 {
+					w.res.Transitions++
+					fn("blank-runs-cut", append([]byte(nil), b.Bytes()[:b.Len()-len(sep)-8]...))
+				}
+			}
+		}
+	}
 	// flush edge x escape: the odd-backslash carry must survive the flush of an index buffer.
 	// P dense structural bytes, then a line whose string has its escaped quote f bytes further.
 	_, flushAt2, _ := simdjson.VerifGeometry()
